@@ -29,7 +29,9 @@ class Circle(Domain):
     def __call__(self, **data):
         new_center = self.center.partially_evaluate(**data)
         new_radius = self.radius.partially_evaluate(**data)
-        return Circle(space=self.space, center=new_center, radius=new_radius)
+        return self._evaluate_user_volume(
+            Circle(space=self.space, center=new_center, radius=new_radius), **data
+        )
 
     def _contains(self, points, params=Points.empty()):
         center, radius = self._compute_center_and_radius(
